@@ -8,6 +8,7 @@ CONSTANTS
   CtxOf <- TrkCtxOf
   Removable <- TrkRemovable
   BeginKinds = {"descriptor", "metric"}
+  KeepH = {}
   TrackH = "dB"
   Tok = {0, 1}
   MaxTx = 5
